@@ -5,7 +5,7 @@
 
 typedef struct {
     const char *name;
-    int bits, slotbits, compact;
+    int bits, slotbits, compact, maxel;
     void (*set)(void *, uint32_t, uint32_t);
     uint32_t (*get)(const void *, uint32_t);
     void (*half)(void *, uint32_t);
@@ -18,6 +18,7 @@ typedef struct {
     uint32_t (*bsearch)(const void *, uint32_t, uint32_t);
 } pk_t;
 #include "packed_inst.h"
+#include <sys/mman.h>
 
 static uint64_t g_inst_cases[256], g_oneslot[256], g_twoslot[256];
 
@@ -70,6 +71,8 @@ static void isolation_case(const pk_t *P, size_t pi, rng_t *r) {
     static const size_t ns[] = {1, 2, 3, 4, 5, 7, 8, 9, 15, 16, 17, 31, 32, 33, 63, 64, 65, 100, 1000};
     size_t n = ns[rng_below(r, sizeof ns / sizeof ns[0])];
     if (rng_chance(r, 1, 3)) n = 1 + rng_below(r, 70);
+    if (rng_chance(r, 1, 16)) n = 65530 + rng_below(r, 5000); /* indices beyond 16 bits */
+    if (P->maxel && n > (size_t)P->maxel) n = (size_t)P->maxel;
     size_t nb = storage_bytes(P, n);
     gbuf_t gb;
     gbuf_alloc(&gb, nb, 64, (uint8_t)(n * 3 + 1));
@@ -78,6 +81,8 @@ static void isolation_case(const pk_t *P, size_t pi, rng_t *r) {
     int steps = 24 + (int)rng_below(r, 40);
     for (int t = 0; t < steps; t++) {
         size_t i = rng_chance(r, 1, 4) ? (rng_chance(r, 1, 2) ? 0 : n - 1) : rng_below(r, n);
+        if (n > 65536 && rng_chance(r, 1, 2)) i = 65536 + rng_below(r, n - 65536);
+        if (i > 65535) STAT_INC("c09_accesses_beyond_index_65535");
         int what = (int)rng_below(r, 8);
         memcpy(expect, gb.p, nb);
         uint32_t cur = model_get(gb.p, P, i);
@@ -302,6 +307,35 @@ static void history_case(const pk_t *P, size_t pi, rng_t *r, bool sorted) {
     gbuf_free(&gb);
 }
 
+/* element offsets beyond 2^32 bits: lazily mapped storage, only a few pages touched */
+static void huge_index_case(const pk_t *P, rng_t *r) {
+    if (P->maxel) return;
+    uint64_t first = (((uint64_t)1 << 32) + (uint64_t)P->bits - 1) / (uint64_t)P->bits;
+    uint64_t i = first + rng_below(r, 1000);
+    if (i > 0xfffffff0ULL) return; /* 32-bit length type */
+    size_t bytes = (size_t)(((i + 2) * (uint64_t)P->bits + 63) / 64 * 8) + 4096;
+    uint8_t *st = mmap(NULL, bytes, PROT_READ | PROT_WRITE, MAP_PRIVATE | MAP_ANONYMOUS | MAP_NORESERVE, -1, 0);
+    if (st == MAP_FAILED) {
+        STAT_INC("c09_huge_index_skipped_mmap_failed");
+        return;
+    }
+    uint32_t v = gen_pvalue(r, P) | 1;
+    v &= vmask(P);
+    g_ctx = "Set";
+    snprintf(g_sub, sizeof g_sub, "%s huge index i=%" PRIu64 " v=%u", P->name, i, v);
+    P->set(st, (uint32_t)i, v);
+    uint32_t back = P->get(st, (uint32_t)i);
+    uint32_t stored = model_get(st, P, (size_t)i);
+    /* the element that a 32-bit wrap of the bit offset would hit */
+    uint64_t wrapped = ((i * (uint64_t)P->bits) & 0xffffffffULL) / (uint64_t)P->bits;
+    uint32_t low0 = model_get(st, P, (size_t)wrapped), low1 = model_get(st, P, (size_t)wrapped + 1);
+    if (back != v || stored != v) PFAIL(P, "Set", "read-back-differs-from-written", "index %" PRIu64 " (bit offset >= 2^32) wrote %u read %u stored %u", i, v, back, stored);
+    else if (low0 || low1) PFAIL(P, "Set", "changed-bits-outside-element", "write at index %" PRIu64 " (bit offset >= 2^32) changed element %" PRIu64, i, wrapped);
+    g_sub[0] = 0;
+    munmap(st, bytes);
+    STAT_INC("c09_huge_index_writes");
+}
+
 static void packed_case(uint64_t idx, rng_t *r) {
     uint64_t g = idx * g_nshards + g_shard;
     size_t pi = (size_t)(g % NPK);
@@ -310,6 +344,7 @@ static void packed_case(uint64_t idx, rng_t *r) {
     int sub = (int)((g / NPK) % 4);
     if (sub < 2) isolation_case(P, pi, r);
     else history_case(P, pi, r, sub == 2);
+    if ((g / NPK) % 8 == 5) huge_index_case(P, r);
     STAT_INC("distinct_nontrivial");
     if (want_sample()) sample("{\"instantiation\":\"%s\",\"bits\":%d,\"slot_bits\":%d,\"compact\":%d,\"subtest\":%d}", P->name, P->bits, P->slotbits, P->compact, sub);
 }
